@@ -11,11 +11,14 @@ def textData (t : Option Str) : Data := match t with | some t => .prim (.str t) 
 def tailEv (tl : Option Str) : List Ev :=
   match tl with | some t => if t.isEmpty then [] else [Ev.data (.prim (.str t))] | none => []
 
+/-- the `DATA None` that flushes the start tag of an element with an `xsi:nil` of its own -/
+def nilFlush (a : List (QN × Str)) : List Ev := if a.any (·.1 = xsiNil) then [Ev.data .none] else []
+
 mutual
 /-- the events `convert_any_element` yields for `anyOf e nillable t` -/
 def treeEv (e : Env) (nillable : Bool) : Tree → List Ev
   | .node q a n t c tl =>
-    [Ev.start q] ++ (parseAnyAttributes a n).map attrEv
+    [Ev.start q] ++ (parseAnyAttributes a n).map attrEv ++ nilFlush (parseAnyAttributes a n)
       ++ [Ev.data (textData (anyText e nillable (!c.isEmpty) t))]
       ++ forestEv e nillable c ++ [Ev.end q] ++ tailEv (normalizeContent e tl)
 def forestEv (e : Env) (nillable : Bool) : List Tree → List Ev
@@ -50,7 +53,7 @@ theorem genAnyType_anyOf (e : BEnv) (Γ : Ctx) (cfg : SerCfg) (var : XmlVar) (ni
       have hq : q.isEmpty = false := by simpa using hn.1
       have ih := genAnyType_forest e Γ cfg var nil c fuel (targetUri q) hn.2
         (by simp [depthTree] at hf; omega)
-      simp [anyOf, genAnyType, hq, ih, bind, Except.bind, pure, Except.pure, treeEv, tailEv, textData, forestEv_eq]
+      simp [anyOf, genAnyType, hq, ih, bind, Except.bind, pure, Except.pure, treeEv, tailEv, textData, forestEv_eq, nilFlush]
       rfl
 theorem genAnyType_forest (e : BEnv) (Γ : Ctx) (cfg : SerCfg) (var : XmlVar) (nil : Bool) :
     ∀ (ts : List Tree) (fuel : Nat) (ns : Option Str), namesOKList ts = true → depthList ts ≤ fuel →
